@@ -411,6 +411,15 @@ pub fn js(j: &Json, key: &str) -> String {
     j[key].as_str().unwrap_or("").to_string()
 }
 
+/// Upper bound on re-executions while shrinking one failure. Forks are slow
+/// under ASan, so that flavour gets fewer.
+pub fn max_shrink_runs() -> u32 {
+    match std::env::var("VERIF_FLAVOUR").as_deref() {
+        Ok("asan") => 60,
+        _ => 140,
+    }
+}
+
 /// Candidate smaller values for shrinking a dimension, ascending.
 pub fn smaller_dims(cur: usize, min: usize) -> Vec<usize> {
     SIZES.iter().copied().filter(|&s| s >= min && s < cur).collect()
@@ -631,7 +640,7 @@ impl FailBudget {
     /// True if this failure should be shrunk and reported.
     pub fn admit(&mut self, rep: &mut Report, class: String) -> bool {
         let n = self.per_class.entry(class).or_insert(0);
-        if *n >= 2 || self.total >= 40 {
+        if *n >= 2 || self.total >= 24 {
             rep.count("failures_not_shrunk_(same_class_already_reported)");
             rep.suppressed_violations += 1;
             return false;
